@@ -158,6 +158,12 @@ class ASet:
         return ASet(self.member, self.key_sort)
 
 
+class DSet(list):
+    """A Python set built from symbolic elements: the elements kept are pairwise DISTINCT on the current path (the
+    executor branched on every equality while building it), so len / iteration / membership are exact.  Everything else
+    on it is out of subset."""
+
+
 class FStr:
     """An f-string with symbolic parts, modelled as a tuple: (literal skeleton, components).
 
